@@ -7,11 +7,11 @@ W=$(mktemp -d /tmp/seedchk.XXXXXX); trap 'rm -rf "$W"' EXIT
 git -C /repo archive HEAD | tar -x -C "$W"; cp /repo/Cargo.lock "$W"/ 2>/dev/null
 mkdir -p "$W/tests"; cp "$SRC/demo.rs" "$W/tests/demo.rs"
 cd "$W"
-BASE=$(CARGO_TARGET_DIR=$W/target cargo test --offline --test demo 2>&1 | grep -E "^test result" | head -1)
+BASE=$(CARGO_TARGET_DIR=$W/target cargo test --offline --features rand --test demo 2>&1 | grep -E "^test result" | head -1)
 if ! git apply --check "$SRC/patch.diff" 2>/dev/null && ! patch -p1 --dry-run -s < "$SRC/patch.diff" >/dev/null 2>&1; then echo "$ID: PATCH DOES NOT APPLY to current HEAD"; exit 3; fi
 patch -p1 -s < "$SRC/patch.diff" || exit 3
 BUILD=$(CARGO_TARGET_DIR=$W/target cargo build --offline --features std,rand,linalg 2>&1 | grep -cE "^error")
-WITH=$(CARGO_TARGET_DIR=$W/target cargo test --offline --test demo 2>&1 | grep -E "^test result" | head -1)
+WITH=$(CARGO_TARGET_DIR=$W/target cargo test --offline --features rand --test demo 2>&1 | grep -E "^test result" | head -1)
 rm -rf "$W/tests"
 SUITE=$(CARGO_TARGET_DIR=$W/target cargo test --offline --lib 2>&1 | grep -E "^test result" | head -1)
 echo "$ID: demo on HEAD: $BASE"
